@@ -181,7 +181,31 @@ func genElectreReq(t *rapid.T, minAlts int) GenReq {
 		o.ValueMode = g.Int(vmHalf, vmPos)
 	}
 	gr := genRequest(t, o)
-	if g.Chance(1, 4) { // integer values 0..7 where integer thresholds bite
+	if g.Chance(1, 3) {
+		// veto-heavy: every criterion has q < p < v close together and values spread so that several criteria
+		// of one pair sit between p and v at the same time (partial discordance on more than one criterion)
+		ec := asM(asM(gr.Req["methodParameters"])["electreCriteria"])
+		for _, id := range sortedKeys(ec) {
+			e := asM(ec[id])
+			q := float64(g.Int(0, 1))
+			p := q + float64(g.Int(1, 2))
+			v := p + float64(int(2)<<uint(g.Int(0, 2)))
+			if q > 0 {
+				e["q"] = M{"b": q}
+			} else {
+				delete(e, "q")
+			}
+			e["p"], e["v"] = M{"b": p}, M{"b": v}
+			e["k"] = float64(g.Int(1, 8))
+		}
+		for _, a := range asL(gr.Req["knownAlternatives"]) {
+			cm := a.(M)["criteria"].(M)
+			for _, k := range sortedKeys(cm) {
+				cm[k] = float64(g.Int(0, 14))
+			}
+		}
+		gr.Labels = append(gr.Labels, "vetoHeavy")
+	} else if g.Chance(1, 4) { // integer values 0..7 where integer thresholds bite
 		for _, a := range asL(gr.Req["knownAlternatives"]) {
 			cm := a.(M)["criteria"].(M)
 			for _, k := range sortedKeys(cm) {
